@@ -22,10 +22,10 @@ go build ./... >>"$log" 2>&1 || { echo "$name: does not build"; exit 1; }
 go build -tags verif ./... >>"$log" 2>&1 || { echo "$name: does not build with -tags verif"; }
 go test -vet=off -count=1 ./... >>"$log" 2>&1 || { echo "$name: SUITE FAILS with change"; exit 1; }
 cp "$demo" "$wt/$ddir/" 
-( eval "timeout 300 $dcmd" ) >>"$log" 2>&1
+( timeout 600 bash -c "$dcmd" ) >>"$log" 2>&1
 with=$?
 git checkout -q -- . 
-( eval "timeout 300 $dcmd" ) >>"$log" 2>&1
+( timeout 600 bash -c "$dcmd" ) >>"$log" 2>&1
 without=$?
 if [ $with -ne 0 ] && [ $without -eq 0 ]; then
   mkdir -p /verif/seeded/$name
